@@ -3,15 +3,15 @@ CONSTANTS
   Family = "C"
   Depth = 2
   MaxHeap = 5
-  MaxR = 4
+  MaxR = 6
   Ds = {2}
   InitKinds = {}
   FactorKinds = {}
-  CondKinds = {"Cond", "CondDiag", "CondId", "CondIdDiag"}
-  RInit = {1, 2}
+  CondKinds = {"Cond", "CondId"}
+  RInit = {1, 3}
   SampleMod = 1
   SampleRes = 0
-  Rich = FALSE
+  Rich = TRUE
 INIT Init
 NEXT Next
 CHECK_DEADLOCK FALSE
